@@ -12,11 +12,15 @@ SIZES = [0.5, 1.0, 2.0, 3.25, 5.0, 7.0, 12.5, 20.0]           # ascending
 ASIZES = [(0.5, 'arcsec'), (2.0, 'arcsec'), (10.0, 'arcsec'),
           (30.0, 'arcsec'), (1.0, 'arcmin'), (0.05, 'deg'),
           (0.1, 'deg'), (0.5, 'deg')]                          # ascending
-ANGLES = [0.0, 30.0, 45.0, 90.0, 123.5, -60.0, 200.0, 400.0, -725.0]
+ANGLES = [0.0, 30.0, 45.0, 90.0, 123.5, -60.0, 200.0, 400.0, -725.0,
+          # congruent to 30 and 45 modulo 360, to 90 modulo 180: different
+          # angles all the same
+          390.0, -315.0, 270.0]
 # the same angles, some spelled in another unit (value, unit)
 ANGLE_SPELLING = [(0.0, 'deg'), (30.0, 'deg'), (0.7853981633974483, 'rad'),
                   (90.0, 'deg'), (7410.0, 'arcmin'), (-60.0, 'deg'),
-                  (3.490658503988659, 'rad'), (400.0, 'deg'), (-725.0, 'deg')]
+                  (3.490658503988659, 'rad'), (400.0, 'deg'), (-725.0, 'deg'),
+                  (390.0, 'deg'), (-315.0, 'deg'), (270.0, 'deg')]
 NVERTS = [3, 4, 5, 6, 8]
 SKY_LONLAT = [(10.0, 20.0), (83.63, 22.01), (266.4, -29.0), (0.5, -0.3),
               (201.3, -43.0), (150.0, 2.2)]
